@@ -118,7 +118,7 @@ def decide(ctx, prog, name, b, rows, extra=()):
     try:
         paths = paths_inlined(prog, b)
         cons = arith_constraints(paths) + list(extra)
-        mism, n, dec = table.compare(paths, rows, constraints=cons)
+        mism, n, dec = table.compare(paths, rows, constraints=cons, len_unbounded=True)
     except (table.Undecided, sym.TooManyPaths) as e:
         ctx.violation("TAB-STEP", key, "undecided: %s" % e, b.file())
         return
